@@ -555,17 +555,28 @@ func solveAll(dir string, obls []*Obligation, tmo time.Duration) {
 			rest = append(rest, i)
 		}
 	}
+	// once several obligations have failed the verdict is settled (the check reports a violation): the remaining
+	// ones get a short race, so that a badly broken tree costs minutes, not tens of minutes
+	var failed int64
 	parallelDo(2, len(rest), func(k int) {
 		i := rest[k]
 		t := tmo
 		if obls[i].Finding != nil {
 			t = tmo / 4 // expected to fail (known finding): the decisive query is the one outside the region
+		} else if atomic.LoadInt64(&failed) >= 4 && t > 5*time.Second {
+			t = 5 * time.Second
 		}
 		obls[i].Result = solveStage2(files[i], obls[i].Result, t)
+		if obls[i].Finding == nil && obls[i].Result.Status != "unsat" {
+			atomic.AddInt64(&failed, 1)
+		}
 	})
 	retried := 0
 	for _, i := range rest {
 		o := obls[i]
+		if failed >= 3 {
+			break
+		}
 		if o.Finding != nil || o.Result.Status != "timeout" || retried >= 2 {
 			continue // `unknown` from every configuration is an answer (instantiation ran dry), a timeout is not
 		}
